@@ -860,6 +860,34 @@ Theorem c07_basis_taylor :
 Proof. exact sp_basis_taylor. Qed.
 Print Assumptions c07_basis_taylor.
 
+(** for the spline itself: while x and x+h stay in one span, the der = 1 entry point is the derivative of the der = 0
+    entry point (S(x+h) = S(x) + h*S'(x) + h^2*R, R built without dividing by h) *)
+Theorem c07_eval_taylor :
+  forall (F : Type) (K : sp_ops F),
+  sp_laws K ->
+  forall (knots : list F) (degree : nat) (coeffs : list F) (x h : F) (s : nat),
+  sp_sorted F K knots ->
+  sp_span_ok F K knots s ->
+  sp_nu_find_span F K knots degree x = SpOk s ->
+  sp_nu_find_span F K knots degree (spadd K x h) = SpOk s ->
+  (1 <= degree)%nat ->
+  (degree <= s)%nat ->
+  (s + degree < length knots)%nat ->
+  (s < length coeffs)%nat ->
+  exists v0 v1 d : F,
+    sp_nu_eval_1d_scalar F K x knots degree coeffs 0 = SpOk v0 /\
+    sp_nu_eval_1d_scalar F K (spadd K x h) knots degree coeffs 0 = SpOk v1 /\
+    sp_nu_eval_1d_scalar F K x knots degree coeffs 1 = SpOk d /\
+    v1 =
+    spadd K (spadd K v0 (spmul K h d))
+      (spmul K (spmul K h h)
+         (sumr F (sp0 K) (spadd K) 0 (S degree)
+            (fun j : nat =>
+             spmul K (nth (s - degree + j) coeffs (sp0 K))
+               (sp_RNd F K knots s x h degree (s - degree + j))))).
+Proof. exact sp_eval_taylor. Qed.
+Print Assumptions c07_eval_taylor.
+
 (** cu_basis_funs are the four cubic polynomials [sp_cu_polys] (coefficient lists) in the offset *)
 Theorem c07_cu_basis_poly :
   forall (F : Type) (K : sp_ops F),
